@@ -16,47 +16,52 @@
 # define FE_FIELDS(a, m, nrm) do { } while (0)
 #endif
 
+/* Largest magnitude for the normalize family.  32 = everything field.h permits.  The 10x26 units run with 31 AND with 32:
+ * at magnitude 32 the 10x26 code wraps a uint32 in the first carry pass (finding, see unit C05.fe_normalize_m32.W64). */
+#ifndef FE_MAXMAG
+# define FE_MAXMAG 32
+#endif
 #ifndef VERIF_NATIVE
 /* ---------------------------------------------------------------- normalize family */
 void h_fe_normalize(void) {
     INPUT(secp256k1_fe, a); INPUT(int, m);
     secp256k1_fe r; wide vin;
-    __CPROVER_assume(m >= 0 && m <= 32 && sa_fe_mag(&a, m)); FE_FIELDS(a, m, 0);
+    __CPROVER_assume(m >= 0 && m <= FE_MAXMAG && sa_fe_mag(&a, m)); FE_FIELDS(a, m, 0);
     r = a; vin = fval(&a);
     secp256k1_fe_normalize(&r);
     __CPROVER_assert(sa_fe_limbs_tight(&r), "C05 fe_normalize: every output limb within its width");
     __CPROVER_assert(fval(&r) < P_(), "C05 fe_normalize: output value below p (canonical)");
     __CPROVER_assert(vin >= fval(&r) && sa_cong_p(vin, fval(&r)), "C05 fe_normalize: output congruent to input mod p");
     __CPROVER_assert(sa_quot_p(vin, fval(&r)) <= 65, "C05 fe_normalize: quotient witness small (input below 2^262)");
-    if (m == 32 && vin > (P_() << 5)) REACH("fe_normalize magnitude 32 above 32p");
+    if (m == FE_MAXMAG && vin > ((P_() << 5) - P_() - P_())) REACH("fe_normalize maximal magnitude, value above 30p");
     if (vin == P_()) REACH("fe_normalize input exactly p");
 }
 void h_fe_normalize_var(void) {
     INPUT(secp256k1_fe, a); INPUT(int, m);
     secp256k1_fe r; wide vin;
-    __CPROVER_assume(m >= 0 && m <= 32 && sa_fe_mag(&a, m)); FE_FIELDS(a, m, 0);
+    __CPROVER_assume(m >= 0 && m <= FE_MAXMAG && sa_fe_mag(&a, m)); FE_FIELDS(a, m, 0);
     r = a; vin = fval(&a);
     secp256k1_fe_normalize_var(&r);
     __CPROVER_assert(sa_fe_limbs_tight(&r), "C05 fe_normalize_var: every output limb within its width");
     __CPROVER_assert(fval(&r) < P_(), "C05 fe_normalize_var: output value below p (canonical)");
     __CPROVER_assert(vin >= fval(&r) && sa_cong_p(vin, fval(&r)), "C05 fe_normalize_var: output congruent to input mod p");
-    if (m == 32 && vin > (P_() << 5)) REACH("fe_normalize_var magnitude 32 above 32p");
+    if (m == FE_MAXMAG && vin > ((P_() << 5) - P_() - P_())) REACH("fe_normalize_var maximal magnitude, value above 30p");
     if (vin == P_() + 1) REACH("fe_normalize_var input p+1");
 }
 void h_fe_normalize_weak(void) {
     INPUT(secp256k1_fe, a); INPUT(int, m);
     secp256k1_fe r; wide vin;
-    __CPROVER_assume(m >= 0 && m <= 32 && sa_fe_mag(&a, m)); FE_FIELDS(a, m, 0);
+    __CPROVER_assume(m >= 0 && m <= FE_MAXMAG && sa_fe_mag(&a, m)); FE_FIELDS(a, m, 0);
     r = a; vin = fval(&a);
     secp256k1_fe_normalize_weak(&r);
     __CPROVER_assert(sa_fe_mag(&r, 1), "C05 fe_normalize_weak: output has magnitude 1");
     __CPROVER_assert(sa_cong_p(vin, fval(&r)), "C05 fe_normalize_weak: output congruent to input mod p");
-    if (m == 32 && vin > (P_() << 5)) REACH("fe_normalize_weak magnitude 32");
+    if (m == FE_MAXMAG && vin > ((P_() << 5) - P_() - P_())) REACH("fe_normalize_weak maximal magnitude, value above 30p");
 }
 void h_fe_ntz(void) {
     INPUT(secp256k1_fe, a); INPUT(int, m);
     int r1, r2;
-    __CPROVER_assume(m >= 0 && m <= 32 && sa_fe_mag(&a, m)); FE_FIELDS(a, m, 0);
+    __CPROVER_assume(m >= 0 && m <= FE_MAXMAG && sa_fe_mag(&a, m)); FE_FIELDS(a, m, 0);
     r1 = secp256k1_fe_normalizes_to_zero(&a);
     r2 = secp256k1_fe_normalizes_to_zero_var(&a);
     __CPROVER_assert(r1 == sa_cong_p(fval(&a), 0), "C05 fe_normalizes_to_zero: returns 1 exactly when the value is a multiple of p");
@@ -207,7 +212,14 @@ void h_fe_add(void) {
     __CPROVER_assume(ma >= 0 && mb >= 0 && ma <= 32 && mb <= 32 && ma + mb <= 32 && sa_fe_mag(&a, ma) && sa_fe_mag(&b, mb)); FE_FIELDS(a, ma, 0); FE_FIELDS(b, mb, 0);
     r = a;
     secp256k1_fe_add(&r, &b);
+#if defined(USE_FORCE_WIDEMUL_INT64)
+    /* 10x26: value(a) + value(b) = sum (a.n[i] + b.n[i]) 2^(26 i), written in the same Horner shape as fval (the direct form
+     * fval(a) + fval(b) is a 320-bit adder-tree miter over 30 terms that did not finish in 300 s) */
+    { wide sv = 0; int i; for (i = SA_FE_NL - 1; i >= 0; i--) sv = (sv << SA_FE_LIMB_BITS) + (W(a.n[i]) + W(b.n[i]));
+      __CPROVER_assert(fval(&r) == sv, "C05 fe_add: value is r + a"); }
+#else
     __CPROVER_assert(fval(&r) == fval(&a) + fval(&b), "C05 fe_add: value is r + a");
+#endif
     __CPROVER_assert(sa_fe_mag(&r, ma + mb), "C05 fe_add: magnitudes add");
     if (ma == 16 && mb == 16) REACH("fe_add 16+16");
 }
